@@ -75,6 +75,8 @@ type Opt struct {
 	// Late - declared on its level after the level's commands were created; a later HelpCommand on the program copies
 	// it down the tree like any other option (only generated for programs with a help command)
 	Late bool `json:"late,omitempty"`
+	// Mid - declared after the first command of its level and before the next one
+	Mid bool `json:"mid,omitempty"`
 	// SetCalledFirst - SetCalled(true) is the first modifier (in front of GetEnv)
 	SetCalledFirst bool `json:"setcalledfirst,omitempty"`
 }
@@ -111,6 +113,8 @@ type Prog struct {
 	SelfName    string   `json:"selfname,omitempty"`
 	SelfDesc    string   `json:"selfdesc,omitempty"`
 	LateMode    bool     `json:"latemode,omitempty"` // SetMode is called after the commands are defined
+	// EarlyMode - 1+mode set before the commands are defined when LateMode sets the final one (0 = no early call)
+	EarlyMode int `json:"earlymode,omitempty"`
 	// LateUnknown / LateReqOrder - SetUnknownMode / SetRequireOrder are called on the program after its commands were
 	// defined: commands copy these two settings when they are created, so they keep the defaults (Fail, no require-order)
 	LateUnknown  bool `json:"lateunknown,omitempty"`
@@ -459,6 +463,8 @@ func Build(p *Prog) *Built {
 	}
 	if !p.LateMode {
 		opt.SetMode(getoptions.Mode(p.Mode))
+	} else if p.EarlyMode > 0 {
+		opt.SetMode(getoptions.Mode(p.EarlyMode - 1)) // overridden by the late call: the mode set last is the program's mode
 	}
 	if !p.LateUnknown {
 		opt.SetUnknownMode(getoptions.UnknownMode(p.Unknown))
@@ -538,7 +544,7 @@ func (b *Built) defineLevel(g *getoptions.GetOpt, c *Cmd, path string) {
 		})
 	}
 	for _, o := range c.Opts {
-		if !o.Late {
+		if !o.Late && !o.Mid {
 			b.defineOpt(g, o)
 		}
 	}
@@ -561,7 +567,14 @@ func (b *Built) defineLevel(g *getoptions.GetOpt, c *Cmd, path string) {
 			return nil
 		})
 	}
-	for _, cc := range c.Cmds {
+	for ci, cc := range c.Cmds {
+		if ci == 1 {
+			for _, o := range c.Opts {
+				if o.Mid {
+					b.defineOpt(g, o)
+				}
+			}
+		}
 		sub := g.NewCommand(cc.Name, cc.Desc)
 		cp := cc.Name
 		if path != "" {
